@@ -12,6 +12,7 @@ def check(A):
     R.isolation_rules(A, 'C16')
     for fl in FLAVOURS:
         R.api_rules(A, fl, 'C16')
+        S.who_may_rules(A, fl, 'C16', parts=('table', 'flags'))
         R.disconnect_rules(A, fl, 'C16')
         R.service_task_rules(A, fl, 'C16')
         R.response_rules(A, fl, 'C16', parts=('reap',))
